@@ -284,6 +284,11 @@ func Open(spec *Spec, dir string) (*Node, error) {
 		cs.SetChainConsensus(d)
 	} else {
 		n.CC.CDB = cs.CDB()
+		// like the DPoS status at boot, the stub starts out knowing the best block: the first block connected
+		// after opening the node is a normal connect (parameter changes voted in it are activated, not discarded)
+		if best, err := cs.GetBestBlock(); err == nil {
+			n.CC.Last = best
+		}
 		cs.SetChainConsensus(n.CC)
 	}
 	return n, nil
